@@ -58,3 +58,106 @@ Lemma reader_noreset_refuted :
 Proof.
   exists 20, [[1; 1; 6]; [1; 1; 6]], [1; 1; 6]. vm_compute. discriminate.
 Qed.
+
+(* ------------------------------------------------------------------ *)
+(* 3. CBE encoder                                                       *)
+(* ------------------------------------------------------------------ *)
+
+(* arrayType is only read while trySmallArrayHeader is set *)
+Definition enc_eqv (a b : Cbe.enc_state) : Prop :=
+  Cbe.es_try_small a = Cbe.es_try_small b /\
+  (Cbe.es_try_small a = true -> Cbe.es_array_type a = Cbe.es_array_type b).
+
+Definition enc_step_rel (x y : option (Cbe.enc_state * bytes)) : Prop :=
+  match x, y with
+  | Some (a', o1), Some (b', o2) => enc_eqv a' b' /\ o1 = o2
+  | None, None => True
+  | _, _ => False
+  end.
+
+Lemma enc_eqv_refl a : enc_eqv a a.
+Proof. split; auto. Qed.
+
+Lemma keep_rel a b (o : option bytes) : enc_eqv a b ->
+  enc_step_rel (Cbe.opt_map (fun x => (a, x)) o) (Cbe.opt_map (fun x => (b, x)) o).
+Proof. intro H. destruct o; simpl; auto. Qed.
+
+Lemma enc_step_rel_refl x : enc_step_rel x x.
+Proof. destruct x as [[a o]|]; simpl; auto using enc_eqv_refl. Qed.
+
+Lemma enc_event_eqv a b e : enc_eqv a b ->
+  enc_step_rel (Cbe.cbe_encode_event a e) (Cbe.cbe_encode_event b e).
+Proof.
+  intro H. destruct e; unfold Cbe.cbe_encode_event;
+    try (apply keep_rel; exact H);
+    try (destruct v; apply keep_rel; exact H);
+    try apply enc_step_rel_refl.
+  - (* EEndDoc *)
+    destruct H as [H1 H2]. destruct a as [ta sa], b as [tb sb]; simpl in H1, H2; subst sb; simpl.
+    destruct sa.
+    + rewrite (H2 eq_refl). apply enc_step_rel_refl.
+    + simpl. split; [split; simpl; auto; discriminate | reflexivity].
+  - (* EArrayChunk *)
+    destruct H as [H1 H2]. destruct a as [ta sa], b as [tb sb]; simpl in H1, H2; subst sb; simpl.
+    destruct sa.
+    + rewrite (H2 eq_refl). apply enc_step_rel_refl.
+    + unfold Cbe.guard. destruct (Cbe.is_u64 n); simpl; auto.
+      split; [split; simpl; auto; discriminate | reflexivity].
+Qed.
+
+Lemma enc_run_eqv es : forall a b i out, enc_eqv a b ->
+  enc_eqv (fst (cbe_enc_run a i es out)) (fst (cbe_enc_run b i es out)) /\
+  snd (cbe_enc_run a i es out) = snd (cbe_enc_run b i es out).
+Proof.
+  induction es as [|e es IH]; intros a b i out H; simpl; [auto|].
+  pose proof (enc_event_eqv a b e H) as R. unfold enc_step_rel in R.
+  destruct (Cbe.cbe_encode_event a e) as [[a' o1]|], (Cbe.cbe_encode_event b e) as [[b' o2]|];
+    try contradiction.
+  - destruct R as [R1 R2]. subst o2. apply IH. exact R1.
+  - simpl. auto.
+Qed.
+
+Definition enc_clean (st : Cbe.enc_state) : Prop := enc_dangling st = false.
+(* a document that a fresh encoder finishes without a pending array begin *)
+Definition enc_closes (es : list event) : Prop :=
+  enc_dangling (fst (cbe_enc_call Cbe.enc_init es)) = false.
+
+Lemma enc_clean_eqv st : enc_clean st -> enc_eqv st Cbe.enc_init.
+Proof. unfold enc_clean, enc_dangling. intro H. split; simpl; [exact H | rewrite H; discriminate]. Qed.
+
+Lemma cbe_enc_obs st es : enc_clean st ->
+  snd (cbe_enc_call st es) = snd (cbe_enc_call Cbe.enc_init es).
+Proof. intro H. apply enc_run_eqv, enc_clean_eqv, H. Qed.
+
+Lemma cbe_enc_step st es : enc_clean st -> enc_closes es -> enc_clean (fst (cbe_enc_call st es)).
+Proof.
+  intros H C. destruct (enc_run_eqv es st Cbe.enc_init 0 [] (enc_clean_eqv st H)) as [[E _] _].
+  unfold enc_clean, enc_dangling, enc_closes, enc_dangling, cbe_enc_call in *. congruence.
+Qed.
+
+Lemma cbe_enc_reuse_when h es : Forall enc_closes h ->
+  run_reused Cbe.enc_init cbe_enc_call h es = run_fresh Cbe.enc_init cbe_enc_call es.
+Proof.
+  apply (reuse_eq_fresh_when Cbe.enc_init cbe_enc_call enc_clean enc_closes).
+  - reflexivity.
+  - intros; apply cbe_enc_obs; assumption.
+  - intros; apply cbe_enc_step; assumption.
+Qed.
+
+(* the same, stated on the instance: no pending array begin when the document starts *)
+Lemma cbe_enc_reuse_clean h es : enc_dangling (run_hist cbe_enc_call Cbe.enc_init h) = false ->
+  run_reused Cbe.enc_init cbe_enc_call h es = run_fresh Cbe.enc_init cbe_enc_call es.
+Proof. intro H. apply cbe_enc_obs. exact H. Qed.
+
+(* a document aborted after an array begin, then a complete document: a stray array header *)
+Lemma cbe_enc_refuted : exists h es,
+  run_reused Cbe.enc_init cbe_enc_call h es <> run_fresh Cbe.enc_init cbe_enc_call es.
+Proof.
+  exists [[EBeginDoc; EVersion 0; EList; EArrayBegin CbeConsts.cbeAT_Uint8]], [EBeginDoc; EVersion 0; ENull; EEndDoc].
+  vm_compute. discriminate.
+Qed.
+Example cbe_enc_refuted_bytes :
+  run_reused Cbe.enc_init cbe_enc_call [[EBeginDoc; EVersion 0; EList; EArrayBegin CbeConsts.cbeAT_Uint8]]
+             [EBeginDoc; EVersion 0; ENull; EEndDoc] = (None, [129; 0; 125; 147]) /\
+  run_fresh Cbe.enc_init cbe_enc_call [EBeginDoc; EVersion 0; ENull; EEndDoc] = (None, [129; 0; 125]).
+Proof. vm_compute. split; reflexivity. Qed.
